@@ -27,6 +27,7 @@ def main(argv=None):
   if a.relock:
     return relock(repo,seed)
   if not a.prop: ap.error('property id required')
+  os.environ['VERIF_TIER']=a.tier           # the registry (shape / configuration enumeration) and the pool workers read the tier from the environment
   return check_property(a.prop,a.tier,repo,seed,a.only,a.v)
 
 def run_pool(repo,keys,timeout_ms,seed,nsample,known,procs=16,reg=None):
